@@ -416,6 +416,25 @@ func (g *LibGen) observe(ops []Op, sFetch, sRaw, sDisk bool, nFetch int) []Op {
 		}
 		ops = append(ops, Op{fmt.Sprintf("fetch %d %d %d %d", k, f, u, g.now), sFetch})
 	}
+	if (g.prop == "C04" || g.prop == "C01") && g.r.Chance(1, 3) {
+		// a reader whose clock is behind the writers' by a few retentions (another host, a
+		// request that names its own instant): the window is one of that clock
+		save := g.now
+		k := g.r.Intn(g.lay.K())
+		back := (1+g.r.Intn(3))*g.lay.Ret(k) + g.r.Intn(g.lay.Ret(k)+1)
+		if g.now-back > g.lay.MaxRet()+10 {
+			g.now -= back
+			f, u := g.window(k)
+			if f < 0 {
+				f = 0
+			}
+			if u < 0 {
+				u = 0
+			}
+			ops = append(ops, Op{fmt.Sprintf("fetch %d %d %d %d", k, f, u, g.now), sFetch})
+		}
+		g.now = save
+	}
 	return ops
 }
 
